@@ -26,6 +26,7 @@ FIXED = [
  ("C19", "b53ebd3", "to_dict omitted a zero-length dynamic array field (no default): from_dict(to_dict()) raised", "corpus/C19/empty_dynamic_array_elided.json"),
  ("C19", "55ba689", "to_dict compared defaults in xobject form: String fields equal to their declared default never omitted; N-D static array fields raised ValueError (broadcast)", "corpus/C19/nd_static_array_default.json"),
  ("C19", "e2169d6", "from_dict(to_dict()) of an object with a nested hybrid object whose class renames fields silently lost those fields' values (or raised)", "corpus/C19/nested_renamed_fields_lost.json"),
+ ("C20", "2ce3888", "unpickled structs with >= 2 dynamic fields raised AttributeError on first access (cached _offsets not restored); dynamic structs came back without _size", "corpus/C20/struct_two_dynamic_fields.json"),
 ]
 OPEN = []
 out = {"comment": "Read-only at run time. 'fixed' entries suppress nothing: the example is in corpus/ and is re-run by the check, so a regression is reported as a violation. 'open' entries are attributed by feature + counterfactual (DESIGN.md section 7).",
